@@ -121,6 +121,7 @@ def run_case(case, ctx):
         if v is not None:
           v.assign(np.abs(v.numpy()) + 0.05)
   xs = [rng.normal(0, 1.0, size=(2,) + tuple(spec["input"])).astype(np.float32) for _ in range(3)]
+  xs[2] = xs[2] * 8.0      # large inputs: saturation levels of the activations become visible
   base = {"op": "reference_prediction"}
   try:
     ref = [np.asarray(model(x, training=False)) for x in xs]
